@@ -216,8 +216,10 @@ def _worker_init():
     shards; nothing is shared between them on purpose)."""
     mod = sys.modules.get("permuta.perm_sets.permset")
     av = getattr(mod, "Av", None) if mod is not None else None
-    lock = getattr(av, "_CACHE_LOCK", None) if av is not None else None
-    if lock is not None:
+    # looked up in the class dictionary: attribute access could run library code (a descriptor
+    # that creates the lock lazily) and so change the state the checks start from
+    lock = vars(av).get("_CACHE_LOCK") if av is not None else None
+    if lock is not None and type(lock).__module__.startswith("multiprocessing"):
         try:
             av._CACHE_LOCK = type(lock)(ctx=multiprocessing.get_context("fork")) \
                 if type(lock).__module__.startswith("multiprocessing") else type(lock)()
